@@ -1,26 +1,51 @@
-//! Instantiates every program of `vf_hydro_progs1` with embedded inputs `a`, `b` (streams of
+//! Instantiates programs of `vf_hydro_progs1` with embedded inputs `a`, `b` (streams of
 //! `(i32, i32)`) and `s` (singleton `i32`) and runs the PRODUCTION embedded code generator
 //! (`generate_embedded` = compile_internal + partition_graph + as_code). One module per program
 //! is written to `$OUT_DIR/programs.rs`; each exposes `run(s, a, b, &mut run::EmbeddedOutputs)`.
+//!
+//! Which programs are compiled (each costs ~1000 lines of generated Rust) is chosen by the
+//! build-time environment variable `VF_EMB1_FAMILY`:
+//!   unset / "core"  hand-written programs + depth<=1 + depth-2 compositions whose FIRST operator is one
+//!                   of gen.py's CORE_FIRST (second operator: all)                      [default]
+//!   "full"          everything (all 522 generated programs)
+//!   "x,y,.."        only programs whose name contains one of the substrings (scratch/mutation runs)
+//! For every compiled program `--cfg <program name>` is set; the run-time tables are guarded by it.
 use hydro_lang::location::Location;
 
+struct Select {
+    mode: String,
+}
+impl Select {
+    fn wants(&self, core: bool, name: &str) -> bool {
+        match self.mode.as_str() {
+            "" | "core" => core,
+            "full" => true,
+            list => list.split(',').any(|s| !s.is_empty() && name.contains(s)),
+        }
+    }
+}
+
 macro_rules! gen_prog {
-    ($out:expr, $modname:ident, $path:path) => {{
-        let mut flow = hydro_lang::compile::builder::FlowBuilder::new();
-        let process = flow.process::<()>();
-        $path(
-            process.embedded_input("a"),
-            process.embedded_input("b"),
-            process.embedded_singleton_input("s"),
-        );
-        let code = flow
-            .with_process(&process, "run")
-            .generate_embedded("vf_hydro_progs1");
-        $out.push_str(&format!(
-            "pub mod {} {{\n{}\n}}\n",
-            stringify!($modname),
-            prettyplease::unparse(&code)
-        ));
+    ($out:expr, $sel:expr, $core:expr, $modname:ident, $path:path) => {{
+        println!("cargo::rustc-check-cfg=cfg({})", stringify!($modname));
+        if $sel.wants($core, stringify!($modname)) {
+            println!("cargo::rustc-cfg={}", stringify!($modname));
+            let mut flow = hydro_lang::compile::builder::FlowBuilder::new();
+            let process = flow.process::<()>();
+            $path(
+                process.embedded_input("a"),
+                process.embedded_input("b"),
+                process.embedded_singleton_input("s"),
+            );
+            let code = flow
+                .with_process(&process, "run")
+                .generate_embedded("vf_hydro_progs1");
+            $out.push_str(&format!(
+                "pub mod {} {{\n{}\n}}\n",
+                stringify!($modname),
+                prettyplease::unparse(&code)
+            ));
+        }
     }};
 }
 
@@ -31,9 +56,11 @@ fn main() {
     println!("cargo::rerun-if-changed=build.rs");
     println!("cargo::rerun-if-changed=gen_build.rs");
     println!("cargo::rerun-if-changed=hand_build.rs");
+    println!("cargo::rerun-if-env-changed=VF_EMB1_FAMILY");
+    let sel = Select { mode: std::env::var("VF_EMB1_FAMILY").unwrap_or_default() };
     let out_dir = std::env::var("OUT_DIR").unwrap();
     let mut out = String::new();
-    gen_all(&mut out);
-    hand_all(&mut out);
+    gen_all(&mut out, &sel);
+    hand_all(&mut out, &sel);
     std::fs::write(format!("{out_dir}/programs.rs"), out).unwrap();
 }
